@@ -2,6 +2,7 @@
 C20 — property theorems (template autoescaping never emits unescaped data).  Helper lemmas: `Lemmas.lean`.
 -/
 import TornadoModel.C20.Lemmas
+import TornadoModel.C20.Strict
 namespace TornadoModel.C20
 open TornadoModel.C19
 
@@ -65,6 +66,62 @@ theorem escaped_output_safe (fn : Str) (h : isEscaping fn = true) (a : Atom) :
 example : isEscaping [101, 115, 99, 97, 112, 101] = true := by decide
 example : exprBytes (some [101, 115, 99, 97, 112, 101]) false (.obj [60, 38, 39]) =
     .ok [38, 108, 116, 59, 38, 97, 109, 112, 59, 38, 35, 120, 50, 55, 59] := rfl
+
+/-- **strict_render_safe** (run level, outputs): in a loader in which every file is strict — literal text without
+markup, every expression tag non-raw in a file whose autoescape function escapes (the default, the loader's, or the
+file's own `{% autoescape %}` directive), `{% apply %}` only with functions that preserve escaped text — every
+successful `generate()` of every template, with every environment (values of any type and content: strings, bytes,
+numbers, None, booleans, objects with arbitrary `__str__`, lists of those as loop items), produces output that contains
+none of `< > " '` and `&` only at the head of one of the five entities.  The run goes through `{% include %}`d files,
+inherited (`{% extends %}` + substituted `{% block %}`) bodies, `{% apply %}`ed bodies, loops, conditionals,
+`try/except/else/finally`, at any nesting.  A file whose setting is `None` may take part as long as it has no
+expression tag of its own: the setting of one file never decides how another file's expressions are emitted. -/
+theorem strict_render_safe (L : Loader) (hL : ∀ t ∈ L, strictFile t = true) (fuel : Nat) (t : FileInfo)
+    (ht : strictFile t = true) (env : Env) (out : List Nat) (h : render L fuel t env = .ok out) :
+    safe out = true := by
+  unfold render at h
+  split at h
+  · cases h
+  · cases h
+  · cases h
+  · rename_i p hp
+    have hplan : strictFile p.root = true ∧ ∀ b ∈ p.named, strictNodes b.owner.autoescape b.body = true := by
+      simp only [plan, bind, Except.bind, pure, Except.pure] at hp
+      split at hp
+      · cases hp
+      · rename_i anc hanc
+        have hA := ancestors_strict L hL fuel t ht anc hanc
+        split at hp
+        · cases hp
+        · rename_i nameds hnameds
+          split at hp
+          · cases hp
+          · rename_i root rest hroot
+            cases hp
+            refine ⟨hA root (List.mem_reverse.1 (by rw [hroot]; exact List.mem_cons_self ..)), ?_⟩
+            intro b hb
+            obtain ⟨l, hl, hbl⟩ := List.mem_flatten.1 hb
+            obtain ⟨a, ha, hg⟩ := mapM_ok_mem _ _ _ hnameds l hl
+            exact findNamed_strict L hL fuel a a.body (hA a (List.mem_reverse.1 ha)) l hg b hbl
+    have hsafe := (interp_safe_all ⟨L, p.named⟩ ⟨hL, hplan.2⟩ fuel).1 p.root p.root.body [] env hplan.1 rfl
+    simp only [] at h
+    split at h
+    · cases h; exact hsafe
+    · cases h
+    · cases h
+
+-- non-vacuity: a file with autoescape None includes a file with autoescape `escape` whose expression sits inside
+-- `{% apply wrap %}`; both files are strict; with x = an object whose str() is `<&'` the output is `[&lt;&amp;&#x27;]`
+example :
+    let inc : FileInfo := ⟨[105], [.apply [119, 114, 97, 112] 1 [.expr [120] 1 false]], some [101, 115, 99, 97, 112, 101]⟩
+    let top : FileInfo := ⟨[116], [.incl [105] 1], none⟩
+    strictFile inc = true ∧ strictFile top = true ∧
+    render [top, inc] 9 top [([120], .atom (.obj [60, 38, 39]))] =
+      .ok [91, 38, 108, 116, 59, 38, 97, 109, 112, 59, 38, 35, 120, 50, 55, 59, 93] := by
+  refine ⟨by simp [strictFile, strictNodes, safeFn, escAe, isEscaping], by simp [strictFile, strictNodes], by rfl⟩
+-- and the hypotheses are needed: the same expression made raw is not strict, and its output is not safe
+example : strictNodes (some [101, 115, 99, 97, 112, 101]) [.expr [120] 1 true] = false := by simp [strictNodes]
+example : safe [60, 38, 39] = false := by decide
 
 /-- **expr_bytes_type_blind**: what an expression tag appends depends only on the text of the value (`str(v)`; the content
 of a str/bytes) — never on its type: the generated code has no branch on the type other than str/bytes. -/
